@@ -8,6 +8,7 @@ import (
 	"fmt"
 	"os"
 	"runtime"
+	"runtime/debug"
 	"strconv"
 
 	"verif/scn"
@@ -29,6 +30,7 @@ const (
 	probeErrCallback
 	probeVisitorAbort
 	probeC11OpFault
+	probeCallbackAbort
 )
 
 var probeNames = map[int]string{
@@ -36,7 +38,7 @@ var probeNames = map[int]string{
 	probeWriterErr: "writer_error_fired", probeWriterShort: "writer_short_write_fired", probeWriterPanic: "writer_panic_fired",
 	probeDumperPanicTaken: "dumper_write_error_panic_taken", probePrinterContinued: "printer_continued_after_write_error",
 	probeBlockBoundary: "pool_block_boundary_crossed", probeNondetReference: "nondeterministic_reference",
-	probeErrCallback: "error_callback_fired", probeVisitorAbort: "visitor_abort_fired", probeC11OpFault: "operation_aborted_by_writer_fault_or_visitor_abort",
+	probeErrCallback: "error_callback_fired", probeVisitorAbort: "visitor_abort_fired", probeC11OpFault: "operation_aborted_by_writer_fault_or_visitor_abort", probeCallbackAbort: "parse_aborted_by_panicking_error_callback",
 }
 
 var (
@@ -60,6 +62,9 @@ func snapshotPhase1(res *scn.Result) {
 		}
 	}
 	res.Faults["forced_gc"] = zzsim.GCFired
+	if zzsim.FinalizersRun > 0 {
+		res.Faults["finalizers_run_as_simulated_task"] = zzsim.FinalizersRun
+	}
 	if *wantTape {
 		res.Tape = append([][2]int64(nil), zzsim.TapeOut[:zzsim.NTapeOut]...)
 		res.FaultTape = append([]int64(nil), zzsim.FaultOut[:zzsim.NFaultOut]...)
@@ -86,6 +91,9 @@ func main() {
 		procs, _ = strconv.Atoi(v)
 	}
 	runtime.GOMAXPROCS(procs)
+	if usesFinalizers {
+		debug.SetGCPercent(-1)
+	}
 
 	raw, err := os.ReadFile(*scnPath)
 	if err != nil {
